@@ -27,6 +27,7 @@ import (
 	"github.com/mgtv-tech/redis-GunYu/pkg/redis/checkpoint"
 	"github.com/mgtv-tech/redis-GunYu/pkg/redis/client"
 	"github.com/mgtv-tech/redis-GunYu/pkg/redis/client/common"
+	"github.com/mgtv-tech/redis-GunYu/syncer"
 
 	"verifh/fakeredis"
 	"verifh/hx"
@@ -236,7 +237,18 @@ func runGcLive(tr *hx.Trace, srv *fakeredis.Server, seed uint64, n, shard, shard
 		hx.Fatal("%v", err)
 	}
 	deadAddr := deadLn.Addr().String()
-	deadLn.Close()
+	// the node that is down keeps its port (another process of this check could be given it otherwise): whoever connects is
+	// hung up on at once
+	defer deadLn.Close()
+	go func() {
+		for {
+			c, err := deadLn.Accept()
+			if err != nil {
+				return
+			}
+			c.Close()
+		}
+	}()
 	oneShard := []*config.RedisClusterShard{{Master: config.RedisNode{Address: fs.ln.Addr().String()}}}
 	runs := 0
 	var samples []interface{}
@@ -246,6 +258,15 @@ func runGcLive(tr *hx.Trace, srv *fakeredis.Server, seed uint64, n, shard, shard
 			continue
 		}
 		r := hx.NewRng(seed*7717 + uint64(i))
+		if i%6 == 5 {
+			wd.Kick(fmt.Sprintf("gclive state %d running link", i))
+			id += shards
+			gc.Input.Redis.SetClusterShards(oneShard)
+			gc.Input.Redis.Addresses = []string{fs.ln.Addr().String()}
+			runGcRunning(tr, srv, sc, fs, r, id, 3600_000)
+			runs++
+			continue
+		}
 		st := &scenario{op: "gclive", staleMs: 3600_000}
 		ndb := 1 + r.Intn(3)
 		used := map[int]bool{}
@@ -333,6 +354,111 @@ func runGcLive(tr *hx.Trace, srv *fakeredis.Server, seed uint64, n, shard, shard
 		}
 	}
 	return runs, samples
+}
+
+// runGcRunning: the collector passes while the link of the source is RUNNING.  A real RedisOutput (transactional batches of one
+// command) replays a stream that writes into database d1, then d2; the collector runs (the source reports the link's id as its
+// current one); the stream goes back to d1; the link stops; the next start looks the position up.
+func runGcRunning(tr *hx.Trace, srv *fakeredis.Server, sc *cmd.SyncerCmd, fs *fakeInfoSource, r *hx.Rng, id int, staleMs int64) {
+	srv.Lock()
+	srv.DBs = map[int]fakeredis.DB{}
+	srv.Unlock()
+	gc := config.GetSyncerConfig()
+	gc.Channel.StaleCheckpointDuration = time.Duration(staleMs) * time.Millisecond
+	fs.id1, fs.id2 = idOld, strings.Repeat("0", 40)
+	// what a start does before it replays: the position is registered under the key (none yet: a first start)
+	cli := connect(srv)
+	if err := checkpoint.UpdateCheckpoint(cli, cpA, []string{idOld, strings.Repeat("0", 40)}); err != nil {
+		hx.Fatal("running: UpdateCheckpoint: %v", err)
+	}
+	cli.Close()
+	d1, d2 := r.Intn(4), r.Intn(4)
+	for d2 == d1 {
+		d2 = r.Intn(4)
+	}
+	start := int64(1000 + r.Intn(9000))
+	var stream []byte
+	var ends []int64
+	var dbs []int
+	add := func(db int, n int) {
+		stream = append(stream, hx.EncodeCmd([]byte("select"), []byte(strconv.Itoa(db)))...)
+		for i := 0; i < n; i++ {
+			stream = append(stream, hx.EncodeCmd([]byte("set"), []byte(fmt.Sprintf("k%d:%d", db, len(ends))), []byte("v"))...)
+			ends = append(ends, start+int64(len(stream)))
+			dbs = append(dbs, db)
+		}
+	}
+	add(d1, 1+r.Intn(2))
+	add(d2, 1+r.Intn(2))
+	cut := len(stream)
+	ncut := len(ends)
+	add(d1, 1+r.Intn(2))
+	ro := syncer.NewRedisOutput(syncer.RedisOutputConfig{
+		InputName: "verif", CheckpointName: cpA, RunId: idOld, CanTransaction: true,
+		Redis:                      config.RedisConfig{Addresses: []string{srv.Addr()}, Type: config.RedisTypeStandalone, Otype: config.RedisTypeStandalone, Version: "7.0.0"},
+		EnableResumeFromBreakPoint: true, TargetDb: -1,
+		BatchCmdCount: 1, BatchTicker: time.Hour, BatchBufferSize: 1 << 30, KeepaliveTicker: time.Hour, UpdateCheckpointTicker: time.Hour,
+		ReplayMode: config.ReplayModeSync, Parallelism: 1, ReplayRdbParallel: 1, KeyExists: "replace",
+		Stats: config.OutputStats{DisableLog: true},
+	})
+	feed := hx.NewFeedReader()
+	ctx, cancel := context.WithCancel(context.Background())
+	defer cancel()
+	done := make(chan error, 1)
+	go func() { done <- ro.Send(ctx, hx.NewChanReader(feed, true, idOld, start, -1)) }()
+	stored := func() int64 {
+		res := readResume(srv, []string{idOld})
+		return res.Off
+	}
+	waitStored := func(off int64, what string) {
+		dl := time.Now().Add(60 * time.Second)
+		for stored() < off {
+			if time.Now().After(dl) {
+				hx.Fatal("running %d: the link did not store position %d (%s)", id, off, what)
+			}
+			time.Sleep(300 * time.Microsecond)
+		}
+	}
+	feed.Feed(stream[:cut])
+	waitStored(ends[ncut-1], "first part")
+	before := readResume(srv, []string{idOld})
+	reqBase := srv.RecvCount()
+	sc.VerifGcStaleCheckpoint(context.Background())
+	gcReqs := srv.RecvCount() - reqBase
+	feed.Feed(stream[cut:])
+	// the last command is stored in d1 again: the link's own view of the position
+	dl := time.Now().Add(60 * time.Second)
+	for {
+		srv.Lock()
+		var got int64 = -1
+		if v := srv.DBs[d1][cpA]; v != nil && v.Type == "hash" {
+			got, _ = strconv.ParseInt(string(v.Hash[idOld+"_offset"]), 10, 64)
+		}
+		srv.Unlock()
+		if got >= ends[len(ends)-1] {
+			break
+		}
+		if time.Now().After(dl) {
+			hx.Fatal("running %d: the link did not write its last position into database %d", id, d1)
+		}
+		time.Sleep(300 * time.Microsecond)
+	}
+	feed.CloseWith(io.EOF)
+	select {
+	case <-done:
+	case <-time.After(30 * time.Second):
+		hx.Fatal("running %d: Send did not return", id)
+	}
+	for j := 0; j < 20000 && srv.ConnCount() > 0; j++ {
+		time.Sleep(100 * time.Microsecond)
+	}
+	after := readResume(srv, []string{idOld})
+	// the position the link itself had reached is what must not be lost
+	want := resume{Off: ends[len(ends)-1], Db: d1, Rid: "old"}
+	_ = before
+	tr.Emit(map[string]interface{}{"ev": "Maint", "id": id, "op": "gclive", "k": 0, "total": 0, "crashed": false, "operr": false, "reported": "running", "gcRequests": gcReqs,
+		"nextStartErr": "", "before": want, "after": after, "later": after, "wrote": -1,
+		"state": fmt.Sprintf("link writes db %d, db %d, collector pass, db %d", d1, d2, d1), "datadbs": fmt.Sprint([]int{d1, d2})})
 }
 
 func main() {
